@@ -295,7 +295,7 @@ pub fn run(ctx: &mut Ctx) {
     ctx.assume("the independent builder is validated against CPython zipfile and unzip -t in the self-test");
     ctx.assume("unix_mode() model: attr==0 -> None; Unix -> attr>>16; DOS -> dir/readonly mapping; other systems -> None");
     ctx.assume("prefixed ZIP64 archives whose payload contains a fake ZIP64 end signature inside the forward-search window are skipped (counted under label skipped-ambiguous)");
-    let n = ctx.q(3000, 50000);
+    let n = ctx.q(8000, 100000);
     let maxc = ctx.q(1 << 16, 2 << 20);
     ctx.explore::<(ArchiveSpec, u8)>("specs", n, &|| (genf::archive(24, maxc, true), any::<u8>()).boxed(), &|(spec, bsel): &(ArchiveSpec, u8), info: &mut Info| {
         labels(spec, info);
